@@ -25,6 +25,12 @@ while [ $# -gt 0 ]; do
   if ! (cd "$H" && RUSTFLAGS="$flags" CARGO_TARGET_DIR=$T/$( [ -n "$flags" ] && echo small || echo plain) cargo build --release --offline --bin "$bin" >"$O/build-$bin.log" 2>&1); then
     echo "BUILD FAILED for $bin"; tail -30 "$O/build-$bin.log"; rc=2; continue
   fi
+  # helper binaries / the CLI built from the mutated tree
+  case "$bin" in
+    c10) (cd "$H" && RUSTFLAGS="" CARGO_TARGET_DIR=$T/plain cargo build --release --offline --bin c10real >>"$O/build-$bin.log" 2>&1) && export VERIF_C10REAL=$T/plain/release/c10real ;;
+    c09) (cd "$H" && RUSTFLAGS="--cfg rust_minidump_verif_smallbuf" CARGO_TARGET_DIR=$T/small cargo build --release --offline --bin c09s >>"$O/build-$bin.log" 2>&1) && export VERIF_C09S=$T/small/release/c09s ;;
+    c20) (cd "$WT" && CARGO_PROFILE_RELEASE_OVERFLOW_CHECKS=true CARGO_PROFILE_RELEASE_DEBUG_ASSERTIONS=true CARGO_PROFILE_RELEASE_DEBUG=0 CARGO_TARGET_DIR=$T/cli cargo build --release --offline -p minidump-stackwalk >>"$O/build-$bin.log" 2>&1) && export VERIF_CLI=$T/cli/release/minidump-stackwalk ;;
+  esac
   b=$T/$( [ -n "$flags" ] && echo small || echo plain)/release/$bin
   VERIF_OUT_DIR=$O VERIF_REPO_ROOT=$WT "$b" "$tier" > "$O/$id.out" 2>&1; r=$?
   echo "== $id $tier exit=$r  ($(grep -c '^VIOLATION' "$O/$id.out") VIOLATION lines, $(grep -c '^KNOWN-FINDING' "$O/$id.out") KNOWN-FINDING lines)"
